@@ -639,7 +639,13 @@ func (m *Machine) builtin(fr *frame, b *ssa.Builtin, args []Value, call *ssa.Cal
 
 // builtinExternal models the handful of standard-library functions the repository calls.
 func (m *Machine) builtinExternal(fn *ssa.Function, args []Value) (Value, bool) {
-	full := fn.String()
+	full := strings.TrimSuffix(fn.String(), "$bound") // a bound method value (mu.Unlock passed around) behaves like the method
+	if strings.HasSuffix(fn.String(), "$bound") && len(fn.FreeVars) == 1 {
+		switch full {
+		case "(*sync.Mutex).Lock", "(*sync.Mutex).Unlock", "(*sync.RWMutex).Lock", "(*sync.RWMutex).Unlock", "(*sync.RWMutex).RLock", "(*sync.RWMutex).RUnlock":
+			return nil, true
+		}
+	}
 	f1 := func(name string) (Value, bool) {
 		return FloatV{sym.FnE(name, args[0].(FloatV).E)}, true
 	}
@@ -751,6 +757,9 @@ func (m *Machine) builtinExternal(fn *ssa.Function, args []Value) (Value, bool) 
 	case "runtime.GOMAXPROCS", "runtime.NumCPU":
 		// one machine configuration: four processors
 		return IntV{P: sym.PInt(4)}, true
+	case "math.Float64bits", "math.Float32bits":
+		// an opaque integer image of the value
+		return IntV{P: sym.PAtom(m.FreshSym("bits"))}, true
 	case "math.Inf":
 		s := args[0].(IntV)
 		if c, ok := s.P.Const(); ok {
